@@ -252,7 +252,7 @@ theorem c08_reqNewBelow_propagate_blocked (F : Flags) (hF : F.new.or F.iNew = so
     reqNewBelow (propagate (.comp F .dict ((k2, o2) :: rest))) = some [k2] := by
   have e := c08_eNew_applyKw
     { iDel := F.del.or (F.iDel.or (if defaultDelete .dict then some true else none)),
-      iNew := F.new.or F.iNew, iSafe := F.safe.or F.iSafe } hF o2
+      iNew := F.new.or F.iNew, iSafe := if F.iSafe = some false then some false else F.safe.or F.iSafe } hF o2
   simp only [propagate, childKw, applyKwList, reqNewBelow, reqNewList, List.nil_append]
   generalize applyKw _ o2 = x at e ⊢
   cases x with
